@@ -5078,7 +5078,9 @@ func reduceBinaryExprDurationLHS(op Token, lhs *DurationLiteral, rhs Expr, loc *
 		case MUL:
 			return &DurationLiteral{Val: lhs.Val * time.Duration(rhs.Val)}
 		case DIV:
-			if rhs.Val == 0 {
+			// The divisor is truncated to an integer: a fraction below one
+			// truncates to zero and must be treated like a zero divisor.
+			if time.Duration(rhs.Val) == 0 {
 				return &DurationLiteral{Val: 0}
 			}
 			return &DurationLiteral{Val: lhs.Val / time.Duration(rhs.Val)}
